@@ -672,6 +672,25 @@ func constraintMutants(name string, base map[string]any) []mutant {
 	})
 	// required sections
 	pools := base["pools"].([]any)
+	// a schedule section that gives nothing but its type: the defaults (zero times / zero duration)
+	// violate the documented minimum of every schedule type, so this is an error, not a silent default
+	for i := range pools {
+		for _, k := range []string{"rps", "startup"} {
+			// (step and instance_step are left out: were their zero step ever accepted, building the
+			// schedule would not terminate, and the harness must end with a verdict)
+			for _, typ := range []string{"once", "const", "line", "unlimited"} {
+				for _, asList := range []bool{false, true} {
+					var v any = map[string]any{"type": typ}
+					if asList {
+						v = []any{map[string]any{"type": "once", "times": 1}, map[string]any{"type": typ}}
+					}
+					pm := deepCopy(pools[i]).(map[string]any)
+					pm[k] = v
+					out = append(out, mutant{Base: name, Kind: "only-type", Path: fmt.Sprintf("/pools/%d/%s=%s,list=%v", i, k, typ, asList), conf: mutate(base, path{"pools", i}, pm).(map[string]any), wantErr: true})
+				}
+			}
+		}
+	}
 	for i := range pools {
 		for _, k := range []string{"gun", "ammo", "result", "rps", "startup"} {
 			pm := deepCopy(pools[i]).(map[string]any)
